@@ -1,4 +1,5 @@
 """Reusable rule building blocks."""
+import re
 import errno as _errno
 
 from . import cfg
@@ -574,3 +575,172 @@ class Summaries(object):
         def lifted(ev):
             return pred(ev) or any(self.may(g, pred, key, 1, ()) for g in self._callees(ev))
         return lifted
+
+
+# ---------- strict loop progress with facts about the byte under the cursor ----------
+
+_CHARLIT = re.compile(r"'(\\.|[^'\\])'")
+_ESC = {"\\n": "\n", "\\r": "\r", "\\t": "\t", "\\0": "\0", "\\\\": "\\", "\\'": "'"}
+
+
+def _chars_in(text):
+    out = set()
+    for m in _CHARLIT.finditer(text or ""):
+        c = m.group(1)
+        out.add(_ESC.get(c, c[-1]))
+    return out
+
+
+def cursors_of(f):
+    """names of the parameters and locals of f that are StreamCursor objects (not StreamCursor::Token / ::Revert)"""
+    def is_cur(t):
+        t = (t or "").replace("Pistache::", "").replace("const ", "").strip()
+        return t.startswith("StreamCursor") and "::" not in t[len("StreamCursor"):]
+    return {p_["name"] for p_ in f.params if is_cur(p_["type"])} | {d["var"] for d in f.events("decl") if d.get("var") and is_cur(d.get("type"))}
+
+
+class StrictProgress(object):
+    """Can an iteration of a cursor-driven loop return to the loop condition, be admitted again, and start the body once more without
+    a call that *definitely* consumes input in between?
+
+    definitely consumes: StreamCursor::advance; a function handed the cursor all of whose non-throwing paths definitely consume
+    (e.g. matchValue); on the true edge of `if (g(.., cursor))`: a bool function all of whose paths to a non-`false` return
+    definitely consume (match_literal, match_raw, ...).
+    may consume (no progress, invalidates what is known about the current byte): every other non-const use of the cursor.
+    What is known: the set of values the byte under the cursor can have, learnt from comparisons of cursor.current() (or a local that
+    holds it) with character constants and from the post-condition of match_until(set) == true (current byte is in the set)."""
+
+    def __init__(self, prog, cur_prefix, readers, matchers=("Pistache::match_until",)):
+        self.prog = prog
+        self.P = cur_prefix
+        self.readers = readers
+        self.matchers = matchers
+        self._sum = {}
+
+    # --- classification of one event of function f
+    def cursor_call(self, ev, cursors, depth=0):
+        if ev["k"] != "call":
+            return None
+        c = ev.get("callee") or ""
+        rv = ev.get("recv") or {}
+        if rv.get("root") in cursors and c.startswith(self.P):
+            if c == self.P + "advance":
+                return "definite"
+            if c in self.readers or (ev.get("cid") or "").rstrip().endswith(" const"):
+                return "read"
+            return "maybe"
+        if any(a.get("v") in cursors for a in ev.get("args", [])) and not c.startswith("std::"):
+            gs = [g for g in self.prog.resolve_call(ev) if g.blocks]
+            if gs and depth < 5:
+                kinds = {self.summary(g, depth + 1) for g in gs}
+                if kinds == {"definite"}:
+                    return "definite"
+                if kinds <= {"definite", "if-true"}:
+                    return "if-true"
+            return "maybe"
+        return None
+
+    def summary(self, g, depth=0):
+        if g.id in self._sum:
+            return self._sum[g.id]
+        self._sum[g.id] = "maybe"         # recursion: conservative
+        cs = cursors_of(g)
+
+        def must(ev):
+            return self.cursor_call(ev, cs, depth) == "definite"
+        exits = [x for x in cfg.exits_without(g, must) if x.kind != "throw"]
+        if not exits:
+            r = "definite"
+        elif all(x.kind == "return" and x.event is not None and x.event.get("const") is False for x in exits):
+            r = "if-true"
+        else:
+            r = "maybe"
+        self._sum[g.id] = r
+        return r
+
+    def check(self, func, hdr, body):
+        """list of (block, line) witnesses where a zero-progress second iteration starts; empty = strict progress proved"""
+        cursors = cursors_of(func)
+        CURRENT = self.P + "current"
+        stuck = []
+        cur_re = re.compile(r"^\(?((\w+) = )?(%s)\.current\(\)\)?$" % "|".join(map(re.escape, cursors)))
+
+        def step(st, ev):
+            poss, aliases, wrapped, pend = st
+            if ev["k"] in ("return", "throw"):
+                return None
+            kind = self.cursor_call(ev, cursors)
+            if kind == "definite":
+                return None
+            if kind in ("maybe", "if-true"):
+                if wrapped:
+                    stuck.append((ev.block, ev.get("l")))
+                    return None
+                return (None, frozenset(), wrapped, (ev.get("t") or "") if kind == "if-true" else None)
+            if ev["k"] == "call" and (ev.get("callee") or "").endswith("Step::raise"):
+                return None
+            if ev["k"] == "decl" and ev.get("var"):
+                if ev.get("icall") == CURRENT:
+                    return (poss, aliases | {ev["var"]}, wrapped, pend)
+                if ev["var"] in aliases:
+                    return (poss, aliases - {ev["var"]}, wrapped, pend)
+            if ev["k"] == "assign":
+                v = (ev.get("lhs") or {}).get("v")
+                t = ev.get("t") or ""
+                rhs = t.split("=", 1)[1].strip() if "=" in t else ""
+                if v and ev.get("op") == "=" and cur_re.match(rhs):
+                    return (poss, aliases | {v}, wrapped, pend)
+                if v in aliases:
+                    return (poss, aliases - {v}, wrapped, pend)
+            return st
+
+        def edge(st, blk, k, succ):
+            poss, aliases, wrapped, pend = st
+            t = blk.term or {}
+            if len(blk.succs) == 2 and t.get("k") in ("if", "while", "for", "do", "land", "lor", "cond"):
+                truth = (k == 0) != bool(t.get("neg"))       # truth value of the core expression on this edge
+                core = (t.get("core") or {}).get("t") or ""
+                if pend is not None and truth and core == pend:
+                    return None                              # `if (match_x(.., cursor))` taken: input was consumed
+                lhs = t.get("lhs") or {}
+                rc = t.get("rconst")
+                if t.get("cmp") in ("==", "!=") and isinstance(rc, str) and rc.startswith("c:"):
+                    if lhs.get("v") in aliases or cur_re.match((lhs.get("t") or "").strip()):
+                        ch = chr(int(rc[2:]))
+                        equal = truth if t["cmp"] == "==" else not truth
+                        if equal:
+                            if poss is not None and ch not in poss:
+                                return None
+                            poss = frozenset([ch])
+                        elif poss is not None:
+                            poss = poss - {ch}
+                            if not poss:
+                                return None
+                if re.match(r"^(%s)\.eof\(\)$" % "|".join(map(re.escape, cursors)), core.strip()):
+                    # end of input is one more "value" the position under the cursor can have
+                    if truth:
+                        if poss is not None and "<EOF>" not in poss:
+                            return None
+                        poss = frozenset(["<EOF>"])
+                    elif poss is not None:
+                        poss = poss - {"<EOF>"}
+                        if not poss:
+                            return None
+                if truth and any(core.startswith(m.rsplit("::", 1)[1] + "(") for m in self.matchers):
+                    # post-condition of match_until(<chars>, cursor) == true: the byte under the cursor is one of <chars>
+                    arg = core[core.index("(") + 1:]
+                    arg = arg[:arg.rindex(",")] if "," in arg else arg
+                    cs = _chars_in(arg)
+                    if cs:
+                        poss = frozenset(cs)
+            if succ not in body:
+                return None
+            if succ == hdr:
+                if wrapped:
+                    stuck.append((blk.id, (blk.term or {}).get("l")))
+                    return None
+                wrapped = True
+            return (poss, aliases, wrapped, None)
+
+        cfg.run_automaton(func, (None, frozenset(), False, None), step, edge=edge, start=hdr)
+        return sorted(set(stuck), key=lambda x: (x[1] or 0, x[0]))
